@@ -59,7 +59,7 @@ func foreignCsigLabel(t *tape.Tape, pk refcose.ParentKind, abbrev bool) int64 {
 func (r *Run) foreignCountersign(t *tape.Tape, parent *ForeignParent, depth int, k Knobs, ent *Entropy, withAbbrev bool) (*refcbor.Item, []*CsigNode) {
 	frag := refcbor.Map()
 	var nodes []*CsigNode
-	n := t.Pick([]int{2, 4, 2}, "fcsig.n")
+	n := t.Pick([]int{3, 6, 3, 2, 1}, "fcsig.n")
 	if n > 0 {
 		label := foreignCsigLabel(t, parent.Kind, false)
 		var objs []*refcbor.Item
@@ -152,7 +152,7 @@ func (r *Run) ForeignWire(t *tape.Tape, s *MsgSpec, k Knobs, ent *Entropy, detac
 // scenario checks them itself (C01/C10 do); here they are only probed.
 func (r *Run) libCountersign(t *tape.Tape, ent *Entropy, p Parent, depth int, withAbbrev bool) []*CsigNode {
 	var nodes []*CsigNode
-	n := t.Pick([]int{2, 4, 2}, "lcsig.n")
+	n := t.Pick([]int{3, 6, 3, 2, 1}, "lcsig.n")
 	asList := n > 1 || t.Bool(1, 3, "lcsig.aslist")
 	label := csigLabel(t, p.Kind, false)
 	var fulls []*cose.Countersignature
